@@ -51,8 +51,8 @@ package cosmoslane
 //@   requires forall i int :: (0 <= i && i < len(msgs)) ==> (msgs[i] != nil && payload(msgs[i]) != nil)
 //@   modifies nothing
 //@   panics[C20.screening_never_panics] never
-//@   ensures[C07.clean_accepts,C16.clean_accepts] err == nil ==> (nestedLvl <= 3 && (forall i int :: (0 <= i && i < len(msgs)) ==> cleanMsg(keys(rmd.disabledNestedMsgs), typeof(msgs[i]), payload(msgs[i]), nestedLvl)))
-//@   ensures[C07.clean_rejects,C16.clean_rejects] err != nil ==> !(nestedLvl <= 3 && (forall i int :: (0 <= i && i < len(msgs)) ==> cleanMsg(keys(rmd.disabledNestedMsgs), typeof(msgs[i]), payload(msgs[i]), nestedLvl)))
+//@   ensures[C07.clean_accepts,C16.clean_accepts,C06.clean_accepts] err == nil ==> (nestedLvl <= 3 && (forall i int :: (0 <= i && i < len(msgs)) ==> cleanMsg(keys(rmd.disabledNestedMsgs), typeof(msgs[i]), payload(msgs[i]), nestedLvl)))
+//@   ensures[C07.clean_rejects,C16.clean_rejects,C06.clean_rejects] err != nil ==> !(nestedLvl <= 3 && (forall i int :: (0 <= i && i < len(msgs)) ==> cleanMsg(keys(rmd.disabledNestedMsgs), typeof(msgs[i]), payload(msgs[i]), nestedLvl)))
 //@ loop 1
 //@   invariant -1 <= rangeindex && rangeindex < len(msgs) && nestedLvl <= 3 && (forall j int :: (0 <= j && j <= rangeindex) ==> cleanMsg(keys(rmd.disabledNestedMsgs), typeof(msgs[j]), payload(msgs[j]), nestedLvl))
 
@@ -64,7 +64,7 @@ package cosmoslane
 //@   panics[C20.own_code_panics] only_if hcPanics[hcN[0]]
 //@   ensures[C07.eth_passes] single(payload(tx)) ==> (hcN[0] == old(hcN[0]) + 1 && hcKind[old(hcN[0])] == 0 && hcCallee[old(hcN[0])] == next && hcCtx[old(hcN[0])] == ctx && hcTxTag[old(hcN[0])] == typeof(tx) && hcTx[old(hcN[0])] == payload(tx) && hcSim[old(hcN[0])] == simulate && newCtx == hcResCtx[old(hcN[0])] && typeof(err) == hcResErrTag[old(hcN[0])] && payload(err) == hcResErr[old(hcN[0])] && hcSawFlagNonce[old(hcN[0])] == old(trFlagNonce[layer(ctx)]) && hcSawFlagPaid[old(hcN[0])] == old(trFlagPaid[layer(ctx)]) && hcSawSeq[old(hcN[0])] == old(acctSeq[layer(ctx)]))
 //@   ensures[C07.cosmos_next_or_reject] !single(payload(tx)) ==> ((hcN[0] == old(hcN[0]) + 1 && hcKind[old(hcN[0])] == 0 && hcCallee[old(hcN[0])] == next && hcCtx[old(hcN[0])] == ctx && hcTxTag[old(hcN[0])] == typeof(tx) && hcTx[old(hcN[0])] == payload(tx) && hcSim[old(hcN[0])] == simulate && newCtx == hcResCtx[old(hcN[0])] && typeof(err) == hcResErrTag[old(hcN[0])] && payload(err) == hcResErr[old(hcN[0])] && hcSawFlagNonce[old(hcN[0])] == old(trFlagNonce[layer(ctx)]) && hcSawFlagPaid[old(hcN[0])] == old(trFlagPaid[layer(ctx)]) && hcSawSeq[old(hcN[0])] == old(acctSeq[layer(ctx)])) || (hcN[0] == old(hcN[0]) && err != nil && newCtx == ctx))
-//@   ensures[C07.nested_clean,C16.nested_clean] !single(payload(tx)) ==> ((hcN[0] == old(hcN[0]) + 1) == (forall i int :: (0 <= i && i < txNMsgs(payload(tx))) ==> cleanMsg(old(keys(rmd.disabledNestedMsgs)), txMsgTag(payload(tx), i), txMsgObj(payload(tx), i), 1)))
+//@   ensures[C07.nested_clean,C16.nested_clean,C06.nested_clean] !single(payload(tx)) ==> ((hcN[0] == old(hcN[0]) + 1) == (forall i int :: (0 <= i && i < txNMsgs(payload(tx))) ==> cleanMsg(old(keys(rmd.disabledNestedMsgs)), txMsgTag(payload(tx), i), txMsgObj(payload(tx), i), 1)))
 
 // The screening set is exactly the configured list (and the map is allocated: precondition of the two functions above).
 //@ func NewCosmosLaneRejectAuthzMsgsDecorator(disabledNestedMsgs []string) CLRejectAuthzMsgsDecorator
